@@ -16,6 +16,13 @@ TdmsFile.open(io.BytesIO(...)).
     BytesIO the harness supplied (tell() after every operation) with the model's
     file position (positions left by the lead-in tag check are not compared, so
     harmless seeks do not matter).
+  * the abstract file itself is not trusted: for every generated file (a sample
+    in the thorough tier) Model/IoBytes.v `iofile_with` recomputes it INSIDE Coq
+    from the file bytes (metadata pass with segment indexes, chunk decoders) and
+    `check_iofile` demands that it is well-formed, regular and isomorphic to the
+    generator's description (same positions, flags, objects, chunk shapes; value
+    labels in one-to-one correspondence per channel).  Props/C05_bytes.v proves
+    that on such files every history yields the eager data of read_correct.
 Failing histories are shrunk (ops deleted while the failure persists).
 """
 import io
@@ -39,6 +46,8 @@ from nptdms import TdmsFile  # noqa: E402
 
 IMPORTS = ("From NpTdms Require Import Model.IoPlan.\nOpen Scope Z_scope.\n")
 CASE_TYPE = "file * list op * list (option out) * list (option Z)"
+IOB_IMPORTS = ("From NpTdms Require Import Base.Bytes Base.Res Model.IoBytes Model.IoPlan.\nOpen Scope Z_scope.\n")
+IOB_CASE_TYPE = "bytes * list bytes * file"
 
 # ---------------------------------------------------------------------------
 # A small independent TDMS encoder (TDMS 2.0 / version 4713; byte order of the segment being
@@ -131,7 +140,10 @@ def gen_file(rng):
     nchan = rng.randint(2, 3)
     types = [rng.choice([T_I32, T_I32, T_F64, T_STR, T_TS]) for _ in range(nchan)]
     nseg = rng.randint(1, 4)
-    counts = [0] * nchan              # labels handed out so far per channel
+    # one file in four also has a channel that never gets data (listed with a "no data" index only):
+    # zero length, no data type
+    zero = nchan if rng.random() < 0.25 else None
+    counts = [0] * (nchan + 1)        # labels handed out so far per channel
     last_layout = {}                  # chan -> (n, lens) of its most recent full index
     prev_order = None                 # ordered_objects of the previous segment: list of [chan, has_data]
     prev_il = False
@@ -158,6 +170,8 @@ def gen_file(rng):
             objs_enc = None
         elif kind == "nodata":
             listed = [c for c in range(nchan) if c in last_layout and rng.random() < 0.6]
+            if zero is not None and rng.random() < 0.3:
+                listed.append(zero)
             order = [[c, False] for c in listed]
             objs_enc = [enc_obj(chan_path(c), None) for c in listed]
             toc = TOC_META | TOC_NEWOBJ
@@ -185,7 +199,8 @@ def gen_file(rng):
                         listed.append(c)          # appended to the object list
             data_set = set(c for c, h in base_order if h and c not in drop) | set(listed)
             if not data_set:
-                c = base_order[0][0] if base_order else rng.randrange(nchan)
+                cands = [x[0] for x in base_order if x[0] != zero]
+                c = cands[0] if cands else rng.randrange(nchan)
                 if c in drop:
                     drop.remove(c)
                 listed.append(c)
@@ -223,6 +238,8 @@ def gen_file(rng):
                 last_layout[c] = lay
             for c in drop:
                 enc_list.append((c, None))
+            if zero is not None and (si == 0 or rng.random() < 0.3):
+                enc_list.append((zero, None))
             if kind == "inc":
                 rng.shuffle(enc_list)
             # ordered_objects: previous list updated in place, unseen paths appended in metadata order
@@ -269,7 +286,7 @@ def gen_file(rng):
         blob += seg_bytes
         prev_order, prev_il = order, il
     _E = "<"
-    chans = [c for c in range(nchan) if counts[c] > 0]
+    chans = [c for c in range(nchan) if counts[c] > 0] + ([zero] if zero is not None else [])
     return {"bytes": blob, "types": types, "chans": chans, "segs": segs, "lengths": counts,
             "raw_ts": rng.random() < 0.3, "shape": shape}
 
@@ -322,6 +339,13 @@ def coq_file(F):
         segs.append("mkSeg %d %d %s %s %s %s" % (s["pos"], s["data_pos"], H.cbool(s["raw"]), H.cbool(s["il"]),
                                                  objs, chunks))
     return "(mkFile %s %s)" % (H.clist(["%d" % c for c in F["chans"]]), H.clist(segs))
+
+
+def coq_iofile_case(F):
+    """(file bytes, channel paths in the generator's numbering, the generator's abstract file)"""
+    npaths = max([len(F["types"])] + [c + 1 for c in F["chans"]])
+    paths = H.clist([H.chex(chan_path(c).encode("utf-8")) for c in range(npaths)])
+    return "(%s, %s, %s)" % (H.chex(F["bytes"]), paths, coq_file(F))
 
 
 # ---------------------------------------------------------------------------
@@ -542,6 +566,8 @@ def gen_history(rng, F, fresh):
             q = rng.random()
             if c in last_index and q < 0.45:
                 i = last_index[c] + rng.choice([-3, -2, -1, 0, 1, 1, 2, 3])   # around the cached chunk
+            elif n == 0:
+                i = rng.choice([0, -1, 1])
             elif q < 0.9:
                 i = rng.randrange(-n, n)
             else:
@@ -789,7 +815,8 @@ def work1(args):
     res = {"fidx": fidx, "shape": F["shape"], "types": [TYPE_NAMES[t] for t in F["types"]],
            "cases": [], "fails": [], "nontrivial": 0, "positions": 0, "ops": 0, "dist": {}, "d3_skipped": 0,
            "label_clash": any(n != d for _, n, d in labels.values()),
-           "unlabelled": [c for c in F["chans"] if labels[c][1] != F["lengths"][c]]}
+           "unlabelled": [c for c in F["chans"] if labels[c][1] != F["lengths"][c]],
+           "zero_length_channel": any(F["lengths"][c] == 0 for c in F["chans"])}
     for h in range(nhist):
         ops = gen_history(rng, F, fresh)
         positions = []
@@ -916,8 +943,11 @@ def main():
         "window reads use the specification 'values of the window' in the model; windows spanning a segment in "
         "which the channel is absent are compared against the fresh file only while defect D3 is unfixed",
         "files: 1-4 segments, 2-3 channels of int32/float64/string/timestamp, 1-4 chunks, contiguous and "
-        "interleaved, incremental metadata, segments without metadata or without raw data; 3 files in 10 mix big- and little-endian segments; one file in "
-        "50 has 104-124 segments with two channels whose per-segment counts agree for the first 101+ segments"]
+        "interleaved, incremental metadata, segments without metadata or without raw data; one file in 4 has an extra "
+        "channel that never gets data (zero length, no data type); 3 files in 10 mix big- and little-endian segments; one file in "
+        "50 has 104-124 segments with two channels whose per-segment counts agree for the first 101+ segments",
+        "the abstract file handed to the model is recomputed inside Coq from the file bytes (Model/IoBytes.v) and must "
+        "be well-formed, regular and isomorphic to the generator's description (labels: one-to-one per channel)"]
     # fixed first case: the D4 witness
     Fw, ops_w = d4_witness()
     fresh_w = Fresh(Fw)
@@ -956,6 +986,8 @@ def main():
             run.count(k if k.startswith("histories_") else "op_" + k, v)
         if len(r["shape"]) > 100:
             run.count("files_with_more_than_100_segments")
+        if r["zero_length_channel"]:
+            run.count("files_with_a_zero_length_untyped_channel")
         for sh in r["shape"]:
             run.count("segment_" + sh.rstrip("01234"))
         for t in r["types"]:
@@ -978,6 +1010,25 @@ def main():
             run.sample({"file_shape": r["shape"], "types": r["types"], "raw_timestamps": F["raw_ts"],
                         "history": [list(o) for o in r["cases"][0][2]][:25]})
     run.count("histories_failing_direct_oracle", nfail)
+    # the generator's abstract files against the ones Coq computes from the bytes
+    iof_files = [Fw] + [restore_F(r["F"]) for r in results if "crash" not in r]
+    iof_files = iof_files[:run.pick(len(iof_files), 800)]
+    bad_f, errors_f = H.run_sharded(run.pid, IOB_IMPORTS, IOB_CASE_TYPE, "check_iofile",
+                                    [coq_iofile_case(F) for F in iof_files], shard=run.pick(20, 40), tag="iofile")
+    run.corr_errors(errors_f)
+    run.count("abstract_files_recomputed_from_bytes_in_coq", len(iof_files))
+    run.count("abstract_files_agreeing_with_generator", len(iof_files) - len(bad_f))
+    for i in bad_f[:3]:
+        F = iof_files[i]
+        rc, out = H.coq_print_terms(run.pid, IOB_IMPORTS,
+                                    ["iofile_of_bytes %s" % H.chex(F["bytes"]), "wf_file %s" % coq_file(F)],
+                                    tag="showiof%d" % i)
+        run.violation("corr-iofile", "the abstract file computed in Coq from the bytes (Model.IoBytes.iofile_with) is "
+                      "not well-formed / regular / isomorphic to the generator's description (file shape %s)"
+                      % "|".join(F["shape"]), {"file_hex": F["bytes"].hex(),
+                                               "abstract": {k: F[k] for k in ("types", "chans", "segs", "shape")}},
+                      kind="correspondence-broken", theorem="Model.IoBytes.check_iofile", model=out[-3000:],
+                      no_input=True)
     # correspondence with the model, inside Coq
     bad, errors = H.run_sharded(run.pid, IMPORTS, CASE_TYPE, "check_case", cases,
                                 shard=run.pick(40, 160), tag="hist")
